@@ -25,9 +25,9 @@ class TypeInfo:
         return self.types.get(key)
 
 
-def build(src: str = SRC) -> TypeInfo:
+def build(src: str = SRC, fresh: bool = False) -> TypeInfo:
     global _RESULT  # pylint: disable=global-statement
-    if _RESULT is not None:
+    if _RESULT is not None and not fresh:
         return _RESULT
     try:
         from mypy import build as mbuild
@@ -86,7 +86,8 @@ def build(src: str = SRC) -> TypeInfo:
         if not modname.startswith("ngo") or state.tree is None:
             continue
         _collect(state.tree, modname, res.types, info)
-    _RESULT = info
+    if not fresh:
+        _RESULT = info
     return info
 
 
